@@ -42,6 +42,10 @@ def rec_with(search=False, cycle=False):
     if cycle: w["cycle"] = {"e": col("k"), "set": "is_cycle", "using": "path"}
     return w
 
+def win_np():
+    """ORDER BY and frame without PARTITION BY (a running total)"""
+    return {"order": [{"e": col("a"), "o": {"d": "Desc"}, "nulls": "Last"}], "frame": {"type": "Range", "start": {"b": "UnboundedPreceding"}}}
+
 def menu():
     _tag[0] = 1000
     select = [
@@ -50,12 +54,14 @@ def menu():
          [c("expr", e=fn("Coalesce", col("b"), val())), c("column", n="a")],
          [c("column", n="id"), c("expr", e={"k": "case", "whens": [{"c": eq(col("a"), val()), "r": val("String")}], "else": val("String")})],
          [c("column", n="a"), c("expr_window", e=fn("Sum", col("a")), w=win(True), a="w")],
-         [c("column", n="a"), c("expr_window_name", e=fn("Sum", col("a")), w="w1", a="w")]],
+         [c("column", n="a"), c("expr_window_name", e=fn("Sum", col("a")), w="w1", a="w")],
+         [c("column", n="a"), c("expr_window", e=fn("Sum", col("a")), w=win_np(), a="rt")]],
         [[], [c("distinct")], [c("distinct_on", cols=["a"])]],
         [[c("from", t=["t1"])], [c("from_as", t=["t1"], a="u")], [c("from_subquery", q=sel(c("column", n="id"), c("column", n="a"), c("column", n="b"), c("from", t=["t1"]), c("and_where", e=bin_("SmallerThan", col("a"), val()))), a="t1")],
          [c("from", t=["t1"]), c("from", t=["t2"])],
          [c("from", t=["main", "t1"])],
-         [c("from_values", rows=[[V(), V("String")], [V(), V("String")]], a="t1")]],
+         [c("from_values", rows=[[V(), V("String"), V()], [V(), V("String"), V()]], a="t1")],
+         [c("from_values", rows=[[V(), V(), V(), V("String")]], a="v4"), c("from_values", rows=[[V()], [V()], [V()]], a="v1")]],
         [[], [c("join", jt="Inner", t=["t2"], on=bin_("Equal", tcol("t1", "id"), tcol("t2", "t1_id")))],
          [c("join", jt="Left", t=["t2"], on=cond("all", False, [bin_("Equal", tcol("t1", "id"), tcol("t2", "t1_id")), bin_("GreaterThan", tcol("t2", "x"), val())]))],
          [c("join_subquery", jt="Inner", q=simple_sub(), a="j", on=bin_("Equal", tcol("j", "t1_id"), tcol("t1", "id")))],
@@ -67,6 +73,8 @@ def menu():
          [c("cond_where", c=cond("any", False, [eq(col("a"), val()), {"k": "in", "neg": False, "e": col("b"), "vs": [val(), val()]}]))],
          [c("and_where", e={"k": "insub", "neg": False, "e": col("id"), "q": simple_sub()})],
          [c("and_where", e={"k": "between", "neg": False, "e": col("a"), "a": val(), "b": val()}), c("and_where", e={"k": "like", "neg": False, "e": col("c"), "p": "x%", "esc": "|"})],
+         [c("and_where", e={"k": "bin", "op": "In", "m": "in_tuples", "l": {"k": "tuple", "es": [col("a"), col("b"), col("id")]},
+                            "r": {"k": "tuple", "es": [{"k": "vals", "vs": [V(), V(), V()]}, {"k": "vals", "vs": [V(), V(), V()]}]}}), c("and_where", e=eq(col("c"), val("String")))],
          [c("and_where", e=bin_("GreaterThan", bin_("Sub", col("a"), bin_("Sub", col("b"), val())), bin_("Mod", col("b"), bin_("Mod", val(), val()))))]],
         [[], [c("group_by_col", n="a")], [c("group_by_col", n="a"), c("group_by", e=bin_("Mod", col("b"), val()))]],
         [[], [c("and_having", e=bin_("GreaterThan", fn("Count", col("id")), val()))]],
@@ -79,7 +87,7 @@ def menu():
         [[], [c("lock", type="Update")], [c("lock", type="Share", tables=[["t1"]], behavior="SkipLocked")], [c("lock", type="NoKeyUpdate", behavior="Nowait")]],
         [[], [c("table_sample", method="SYSTEM", pct=50)], [c("table_sample", method="BERNOULLI", pct=10, rep=3)]],
         [[], [c("use_index", name="ix_a", scope="All")], [c("force_index", name="ix_a", scope="OrderBy"), c("ignore_index", name="ix_b", scope="Join")]],
-        [[], [c("window", name="w1", w=win(False))], [c("window", name="w1", w=win(True))]],
+        [[], [c("window", name="w1", w=win(False))], [c("window", name="w1", w=win(True))], [c("window", name="w1", w=win_np())]],
         [[], [c("with_cte", w={"ctes": [{"name": "cte", "cols": ["k"], "q": sel(c("column", n="k"), c("from", t=["t2"]), c("and_where", e=eq(col("x"), val())))}]})],
          [c("with_cte", w=rec_with(search=True))], [c("with_cte", w=rec_with(cycle=True))], [c("with_cte", w=rec_with(search=True, cycle=True))],
          [c("with_cte", w=rec_with())]],
